@@ -14,6 +14,7 @@ RULE = ("G_live witness graphs (+ the repository's own test topology) under both
         "checked for isolation (own nonce only, seq/time from 0, C03/C04 clauses); one evaluation = one episode; non-trivial = "
         "episode whose forced gate was reached or that ended with an immediate stop/next reset; distinct by spec digest x episode "
         "x ending")
+RULE += " Built later: G_wide family (overruns and blocking+skip allowed, no blocking fast->slow edge; supported since repairs 4f3d528/f3bcd76)."
 RULE += " Built later: blocking-cycle family (slow->fast blocking edge, blocking skipped back-edge, rate multiple <= 4, one starved connection worker)."
 RULE += " Built later: ring family (a bursty fast node between the supervisor and a slow node) that makes a lost wake-up in a connection's selection queue a deadlock."
 RULE += " Built later: episodes start from the initial or from the previous episode's final graph state (carried over; only the seq/time-from-0 clauses apply then); one node with a 1 s start-up routine on the wall clock (episode time must not include it)."
@@ -70,6 +71,10 @@ def run_case(case):
         # isolation-only cases outside G_live: non-blocking graphs WITH computation overruns (drift, queued messages at stop);
         # a stall in run()/step() on such a graph is outside the supported class -> inconclusive, never a violation
         spec = S.rand_spec(case["spec_seed"], allow_blocking=False, allow_advance=False, overrun=True, n_max=4)
+    elif case.get("kind") == "fan":
+        spec = S.rand_fan(case["spec_seed"])  # fast receiver, several slow non-blocking senders that listen to it
+    elif case.get("kind") == "wide":
+        spec = S.rand_wide(case["spec_seed"], n_max=4)  # G_wide minus G_live: overruns and blocking+skip, no blocking fast->slow edge
     elif case.get("kind") == "blk":
         spec = S.rand_blk(case["spec_seed"])  # cycles of blocking connections with a slow->fast member (zero-timestamp ts_max entries)
     elif case.get("kind") == "cyc":
@@ -88,7 +93,7 @@ def run_case(case):
         slow_start = 1.0
         rnd.choice(list(nodes.values())).startup_sleep = slow_start  # episode time must start AFTER the start-up routines
     slow = None
-    if case.get("kind") in ("blk", "cyc") and rnd.random() < 0.75:
+    if case.get("kind") in ("blk", "cyc", "fan") and rnd.random() < 0.75:
         # one starved connection worker (10x slower): timestamps reach a queue after the expectations that wait for them
         slow = "n1/n0" if case.get("kind") == "blk" else rnd.choice([f"{c['inp']}/{c['out']}" for c in spec["conns"]])
     mon = D.Monitor(seed=case["spec_seed"], p_sleep=(0.1 if slow else 0.15) if not wall else 0.0, max_sleep=0.004 if slow else 0.003, slow_owner=slow).install()
@@ -292,6 +297,8 @@ def plan(tier, seed):
     cases += [dict(name=f"wall-{i}", spec_seed=seed * 100057 + 5000 + i, clock="wall", timeout=300) for i in range(nw)]
     cases += [dict(name=f"iso-{i}", kind="iso", spec_seed=seed * 100057 + 7000 + i, clock="sim", timeout=300) for i in range(12 if tier == "quick" else 150)]
     cases += [dict(name=f"cyc-{i}", kind="cyc", spec_seed=seed * 100057 + 11000 + i, clock="sim", timeout=300) for i in range(10 if tier == "quick" else 120)]
+    cases += [dict(name=f"wide-{i}", kind="wide", spec_seed=seed * 100057 + 15000 + i, clock="sim", timeout=300) for i in range(12 if tier == "quick" else 200)]
+    cases += [dict(name=f"fan-{i}", kind="fan", spec_seed=seed * 100057 + 17000 + i, clock="sim", timeout=300) for i in range(6 if tier == "quick" else 60)]
     cases += [dict(name=f"blk-{i}", kind="blk", spec_seed=seed * 100057 + 13000 + i, clock="sim", timeout=300) for i in range(16 if tier == "quick" else 160)]
     cases += [dict(name=f"corpus-{i}", spec_seed=seed * 100057 + 9000 + i, corpus=i % 3, clock="sim", timeout=300) for i in range(3 if tier == "quick" else 12)]
     return cases
